@@ -160,7 +160,8 @@ class Exec(object):
         bars = [self.world.bars[i] for i in mt.bars]
         if len(mt.obj.bars) != len(bars) or not all(self.world.bar_consistent(b) for b in bars):
             return None
-        return {"name": mt.name if mt.name is not None else "Untitled", "named": True, "instr": mt.instr, "bars": [self._bar_model(b) for b in bars]}
+        instr = mt.instr if getattr(mt, "pending_instr", None) is None else ["none"]  # not attached (yet): no instrument
+        return {"name": mt.name if mt.name is not None else "Untitled", "named": True, "instr": instr, "bars": [self._bar_model(b) for b in bars]}
 
     def _resolve(self, op):
         """-> (library object, model dict) or (None, None)"""
@@ -641,6 +642,10 @@ class Exec(object):
             except Exception as e:
                 self.fail("C17.sequence", "track %d: cannot walk what was read back: %s" % (ti, e), **f)
                 continue
+            if any(not e.get("whole", True) for bb in tm["bars"] for e in bb["entries"]):
+                # the statement speaks of values that are whole tick counts; anything else is rounded on the way out
+                self.probes["c17_track_outside_domain_not_whole_ticks"] += 1
+                continue
             self.clauses["C17.sequence"] += 1
             nw, nr = normal_form(w_seq), normal_form(r_seq)
             if f["leading_rest"]:
@@ -736,7 +741,8 @@ def _fill(rng, meter, whole_only, full):
         if not full and len(syms) > 1 and rng.random() < 0.5:
             syms = syms[: rng.randrange(1, len(syms) + 1)]
         return syms
-    return [[meter[1], 0, 1, 1] for _ in range(meter[0])]
+    count, unit = score.reduce_meter(meter[0], meter[1])
+    return [[unit, 0, 1, 1] for _ in range(count)]
 
 
 def _gen_track(rng, ops, cfg, prop, single_key_meter):
@@ -761,7 +767,8 @@ def _gen_track(rng, ops, cfg, prop, single_key_meter):
         name = "".join(rng.choice("abcXYZ 019_-") for _ in range(rng.choice([127, 128, 200, 300])))
     else:
         name = "".join(rng.choice("abcdefgh XYZ019") for _ in range(rng.randrange(1, 20)))
-    ops.append({"op": "track", "instr": instr, "name": name})
+    late = instr[0] != "none" and rng.random() < 0.3
+    ops.append({"op": "track", "instr": instr, "name": name, "late": late})
     t = sum(1 for o in ops if o["op"] == "track") - 1
     t_index = t
     key = rng.choice(world.ALL_KEYS) if rng.random() < cfg["key_p"] else "C"
@@ -812,6 +819,12 @@ def _gen_track(rng, ops, cfg, prop, single_key_meter):
                 o = {"op": "place", "bar": b, "notes": world.gen_chord(rng, chan, vel_lo=vel_lo), "v": sym}
             ops.append(o)
         ops.append({"op": "tadd", "track": t_index, "bar": b})
+        if rng.random() < 0.05:
+            ops.append({"op": "tadd", "track": t_index, "bar": b, "again": True})
+        if rng.random() < 0.06:
+            ops.append({"op": "setnote", "bar": b, "entry": rng.randrange(8), "pos": rng.randrange(5), "note": world.gen_note(rng, chan, vel_lo=vel_lo)})
+    if late:
+        ops.append({"op": "setinstr", "track": t_index})
     return t_index
 
 
@@ -918,6 +931,7 @@ def generate(rng, prop, tier):
                 ops.append(o)
         if wrote and not any(o["op"] == "read" for o in ops):
             ops.append({"op": "read", "path": wrote[-1], "reader": "fresh"})
+    ops = world.sprinkle_theory(rng, ops)
     return {"prop": prop, "cfg": cfg, "ops": ops}
 
 
@@ -1156,7 +1170,7 @@ def describe(prop):
             "rule": "Each run builds tracks/compositions through the library API (bars filled from a symbolic value vocabulary, all 30 keys, rests in every position, instruments, names) and writes 1-4 objects to a simulated disk with the five writers or through the public MidiFile/MidiTrack classes, fault-free, under short raw writes, or under an injected ENOSPC/EIO/EACCES at a seeded byte offset. The bytes that reached the simulated disk are decoded by an independent SMF reader and compared clause by clause with a tick model. Non-trivial = at least one write reached the disk. Distinct = distinct run shape (writer kinds, mode, #tracks, key classes, value classes, rest positions, instrument kinds, repeat, fault kind, buffer size).",
             "state_measure": "not used for C16",
             "fault_kinds": ["short_write", "write_error", "open_error"],
-            "probes": ["object_rewritten_after_edit", "path_overwritten_by_shorter_file", "leading_rest_with_midi_instrument", "rounding_value", "name_length_2_byte_vlq", "delta_needs_2_byte_vlq", "write_error_raised", "write_error_returned_false", "error_plan_did_not_bite", "get_midi_data_observed", "builder_refused", "skipped_precondition"],
+            "probes": ["instrument_attached_late", "same_bar_object_added_again", "container_not_ascending_after_item_assignment", "object_rewritten_after_edit", "path_overwritten_by_shorter_file", "leading_rest_with_midi_instrument", "rounding_value", "name_length_2_byte_vlq", "delta_needs_2_byte_vlq", "write_error_raised", "write_error_returned_false", "error_plan_did_not_bite", "get_midi_data_observed", "builder_refused", "skipped_precondition"],
             "clauses": ["C16.frame", "C16.noteon", "C16.noteoff", "C16.single", "C16.repeat", "C16.tempo", "C16.name", "C16.program", "C16.timesig", "C16.keysig", "C16.vlq", "C16.success_implies_complete", "C16.stall"],
             "components_real": common_real,
             "components_stub": ["disk (dsim.simfs raw file + fault plans)", "print"],
@@ -1172,7 +1186,7 @@ def describe(prop):
         "rule": "Each run is a history over a small simulated disk: compositions built through the library API are written (write_Composition/write_Track or the public classes), paths are overwritten, stored bytes are damaged in the regions the statement names (MThd tag, format field, MTrk tags), and files are read back with a fresh or a reused reader, under transparent short reads/writes. What is read back is compared with a model of the last object written to that path. Non-trivial = at least one file operation. Distinct = distinct run shape (write shapes as in C16 x history pattern x reader kind x flip region x fault kind).",
         "state_measure": "not used for C17",
         "fault_kinds": ["short_write", "short_read", "stored_flip"],
-        "probes": ["track_begins_with_rest", "consecutive_rests", "reader_reused", "reader_reused_after_reject", "flip_MThd", "flip_format", "flip_MTrk", "flip_whole_tag", "key_read_back_C", "key_read_back_major_natural", "key_read_back_major_accidental", "key_read_back_minor", "builder_refused", "skipped_precondition"],
+        "probes": ["instrument_attached_late", "same_bar_object_added_again", "container_not_ascending_after_item_assignment", "track_begins_with_rest", "consecutive_rests", "reader_reused", "reader_reused_after_reject", "flip_MThd", "flip_format", "flip_MTrk", "flip_whole_tag", "key_read_back_C", "key_read_back_major_natural", "key_read_back_major_accidental", "key_read_back_minor", "builder_refused", "skipped_precondition"],
         "clauses": ["C17.tracks", "C17.sequence", "C17.dynamics", "C17.tempo", "C17.name", "C17.program", "C17.meter", "C17.key", "C17.vlq_inverse", "C17.reject", "C17.stall"],
         "components_real": common_real + ["mingus.midi.midi_file_in (MidiFile parsers, MIDI_to_Composition)"],
         "components_stub": ["disk (dsim.simfs raw file + fault plans)", "print"],
